@@ -1,6 +1,7 @@
 // Uniform, byte-vector view of the three parameter sets of the library under test.
 #![allow(deprecated)]
 use fips204::traits::{KeyGen, SerDes, Signer, Verifier};
+#[cfg(feature = "hooks")]
 use fips204::verif_hooks as vh;
 use fips204::Ph;
 use rand_core::CryptoRngCore;
@@ -51,16 +52,27 @@ pub trait MlDsa {
     fn pk_size() -> usize;
     fn sk_size() -> usize;
     // hooks
+    #[cfg(feature = "hooks")]
     fn sig_decode(sig: &[u8]) -> Option<(Vec<u8>, Vec<Poly>, Vec<Poly>)>;
+    #[cfg(feature = "hooks")]
     fn sig_encode(ct: &[u8], z: &[Poly], h: &[Poly]) -> Vec<u8>;
+    #[cfg(feature = "hooks")]
     fn sk_decode(sk: &[u8]) -> Option<(Vec<Poly>, Vec<Poly>, Vec<Poly>)>;
+    #[cfg(feature = "hooks")]
     fn pk_decode(pk: &[u8]) -> Option<Vec<Poly>>;
+    #[cfg(feature = "hooks")]
     fn hint_unpack(y: &[u8]) -> Option<Vec<Poly>>;
+    #[cfg(feature = "hooks")]
     fn hint_pack(h: &[Poly]) -> Vec<u8>;
+    #[cfg(feature = "hooks")]
     fn w1_encode(w1: &[Poly]) -> Vec<u8>;
+    #[cfg(feature = "hooks")]
     fn expand_a(rho: &[u8; 32]) -> Vec<Vec<Poly>>;
+    #[cfg(feature = "hooks")]
     fn mat_vec_mul(a: &[Vec<Poly>], u: &[Poly]) -> Vec<Poly>;
+    #[cfg(feature = "hooks")]
     fn ntt_l(v: &[Poly]) -> Vec<Poly>;
+    #[cfg(feature = "hooks")]
     fn inv_ntt_k(v: &[Poly]) -> Vec<Poly>;
 }
 
@@ -129,33 +141,40 @@ macro_rules! impl_set {
             }
             fn pk_size() -> usize { std::mem::size_of::<Self::Pk>() }
             fn sk_size() -> usize { std::mem::size_of::<Self::Sk>() }
+            #[cfg(feature = "hooks")]
             fn sig_decode(sig: &[u8]) -> Option<(Vec<u8>, Vec<Poly>, Vec<Poly>)> {
                 let s: [u8; fips204::$m::SIG_LEN] = sig.try_into().ok()?;
                 vh::sig_decode::<$k, $l, { $lambda / 4 }, { fips204::$m::SIG_LEN }>($g1, $omega, &s)
                     .map(|(c, z, h)| (c.to_vec(), z.to_vec(), h.to_vec()))
             }
+            #[cfg(feature = "hooks")]
             fn sig_encode(ct: &[u8], z: &[Poly], h: &[Poly]) -> Vec<u8> {
                 let c: [u8; $lambda / 4] = ct.try_into().unwrap();
                 let z: [Poly; $l] = z.try_into().unwrap();
                 let h: [Poly; $k] = h.try_into().unwrap();
                 vh::sig_encode::<$k, $l, { $lambda / 4 }, { fips204::$m::SIG_LEN }>($g1, $omega, &c, &z, &h).to_vec()
             }
+            #[cfg(feature = "hooks")]
             fn sk_decode(sk: &[u8]) -> Option<(Vec<Poly>, Vec<Poly>, Vec<Poly>)> {
                 let s: [u8; fips204::$m::SK_LEN] = sk.try_into().ok()?;
                 vh::sk_decode::<$k, $l, { fips204::$m::SK_LEN }>($eta, &s)
                     .map(|(_, _, _, s1, s2, t0)| (s1.to_vec(), s2.to_vec(), t0.to_vec()))
             }
+            #[cfg(feature = "hooks")]
             fn pk_decode(pk: &[u8]) -> Option<Vec<Poly>> {
                 let p: [u8; fips204::$m::PK_LEN] = pk.try_into().ok()?;
                 vh::pk_decode::<$k, { fips204::$m::PK_LEN }>(&p).map(|(_, t1)| t1.to_vec())
             }
+            #[cfg(feature = "hooks")]
             fn hint_unpack(y: &[u8]) -> Option<Vec<Poly>> { vh::hint_bit_unpack::<$k>($omega, y).map(|h| h.to_vec()) }
+            #[cfg(feature = "hooks")]
             fn hint_pack(h: &[Poly]) -> Vec<u8> {
                 let h: [Poly; $k] = h.try_into().unwrap();
                 let mut out = vec![0u8; $omega as usize + $k];
                 vh::hint_bit_pack::<false, $k>($omega, &h, &mut out);
                 out
             }
+            #[cfg(feature = "hooks")]
             fn w1_encode(w1: &[Poly]) -> Vec<u8> {
                 let w: [Poly; $k] = w1.try_into().unwrap();
                 let bits = vh::bit_length((vh::Q - 1) / (2 * $g2) - 1);
@@ -163,18 +182,22 @@ macro_rules! impl_set {
                 vh::w1_encode::<$k>($g2, &w, &mut out);
                 out
             }
+            #[cfg(feature = "hooks")]
             fn expand_a(rho: &[u8; 32]) -> Vec<Vec<Poly>> {
                 vh::expand_a::<$k, $l>(rho).iter().map(|r| r.to_vec()).collect()
             }
+            #[cfg(feature = "hooks")]
             fn mat_vec_mul(a: &[Vec<Poly>], u: &[Poly]) -> Vec<Poly> {
                 let a: [[Poly; $l]; $k] = core::array::from_fn(|i| a[i].clone().try_into().unwrap());
                 let u: [Poly; $l] = u.try_into().unwrap();
                 vh::mat_vec_mul::<$k, $l>(&a, &u).to_vec()
             }
+            #[cfg(feature = "hooks")]
             fn ntt_l(v: &[Poly]) -> Vec<Poly> {
                 let v: [Poly; $l] = v.try_into().unwrap();
                 vh::ntt::<$l>(&v).to_vec()
             }
+            #[cfg(feature = "hooks")]
             fn inv_ntt_k(v: &[Poly]) -> Vec<Poly> {
                 let v: [Poly; $k] = v.try_into().unwrap();
                 vh::inv_ntt::<$k>(&v).to_vec()
